@@ -4,3 +4,8 @@ stock-logger scenario of harness/tripwire_run.py."""
 
 def bump(i):
     return i
+
+
+def lone(x):
+    """handed an instance of a class whose metaclass journals __hash__/__eq__ (alone: nothing to merge, nothing to compare)"""
+    return None
